@@ -419,7 +419,7 @@ pub fn run(args: &Args) {
     rep.add("systematic.schedules", sys);
     rep.max("systematic.depth", depth as u64);
     // random schedules
-    let n = args.budget(24_000, 240_000);
+    let n = args.budget(24_000, 120_000);
     for k in 0..n {
         let mut r = Rng::new(args.case_seed(k));
         let npeers = 2 + r.usize(2);
